@@ -331,13 +331,57 @@ def expr_roots(ex, e):
     return True, set()
 
 
+def access_path(ex, e):
+    """(root parameter, access path) of an attribute / subscript chain, or None when the
+    expression is anything else; '*' stands for an index that is not a constant"""
+    comps = []
+    while isinstance(e, (ast.Subscript, ast.Attribute)):
+        if isinstance(e, ast.Attribute):
+            comps.append(e.attr)
+        elif isinstance(e.slice, ast.Constant):
+            comps.append(e.slice.value)
+        elif isinstance(e.slice, ast.Slice):
+            return None
+        else:
+            comps.append('*')
+        e = e.value
+    if not isinstance(e, ast.Name):
+        return None
+    comps.reverse()
+    base = getattr(ex, 'paths', {}).get(e.id)
+    if base is not None:
+        return (base[0], base[1] + tuple(comps))
+    if e.id in getattr(ex, 'param_names', []):
+        return (e.id, tuple(comps))
+    return None
+
+
+def paths_disjoint(mutated, held):
+    """a name holding the value at access path *held* is unaffected by an in-place update of the
+    object at path *mutated* (same root) unless its value contains that object, i.e. unless *held*
+    is a prefix of *mutated*"""
+    if mutated is None or held is None or mutated[0] != held[0]:
+        return False
+    if len(held[1]) > len(mutated[1]):
+        return True
+    for x, y in zip(held[1], mutated[1]):
+        if x == '*' or y == '*':
+            return False
+        if x != y:
+            return True
+    return False
+
+
 def record_roots(ex, tgt, value_expr):
     f, r = expr_roots(ex, value_expr)
+    if not hasattr(ex, 'paths'):
+        ex.paths = {}
     for n in ast.walk(tgt):
         if isinstance(n, ast.Name):
             ex.roots[n.id] = set(r)
             # parts obtained by unpacking are inner objects of the value
             ex.fresh_outer[n.id] = f if isinstance(tgt, ast.Name) else False
+            ex.paths[n.id] = access_path(ex, value_expr) if isinstance(tgt, ast.Name) else None
 
 
 def depth_of(e):
@@ -363,8 +407,11 @@ def in_place(ex, obj_expr, node):
         if p in getattr(ex, 'param_names', []) and p not in allowed:
             ex.oblige('frame', z3.BoolVal(False),
                       label='frame[%s]:mutated through %s@%s' % (p, r, getattr(node, 'lineno', '?')))
+    mp = access_path(ex, obj_expr)
     for n, rs in list(ex.roots.items()):
         if n != r and n in ex.env and rs & roots:
+            if paths_disjoint(mp, getattr(ex, 'paths', {}).get(n)):
+                continue       # e.g. `current = self._next` is untouched by next(self.iterator)
             ex.poisoned.add(n)
 
 
